@@ -8,7 +8,7 @@ import json
 import gfeel
 import rfeel
 import runner
-from common import crash_signature, panic_signature, rng_for
+from common import crash_signature, panic_signature, rng_for, warm
 
 LEVEL = "exploration"
 
@@ -144,6 +144,11 @@ def evaluate_ref(tree, frames):
 
 
 def run(rep, tier, seed):
+    # paths to the entries every generated context has (a, b) are written `name.entry`, without parentheses, so that what
+    # follows the entry name is an operator or a keyword (where the entry name ends depends on the scope the text is parsed
+    # under). Entries that may be missing keep their parentheses: an UNKNOWN entry name followed by a word is outside the
+    # bound-names fragment of the statement (the lexer extends it over the following words).
+    rfeel.TIGHT_PATHS = ("a", "b")
     n_random = 60000 if tier == "quick" else 1500000
     per_pair = 6 if tier == "quick" else 60
     rep.rule = (
@@ -183,8 +188,8 @@ def run(rep, tier, seed):
         for tree, _, origin in chunk:
             texts.append(rfeel.render(tree))
             gfeel.constructs_in(tree, singles, pairs)
-        cases.append({"op": "evalmany", "scope": g.scope_json(frames), "texts": texts, "reps": 2})
-        cases.append({"op": "evalmany", "scope": g.scope_json(frames, pad=True), "texts": texts})
+        cases.append(warm({"op": "evalmany", "scope": g.scope_json(frames), "texts": texts, "reps": 2}))
+        cases.append(warm({"op": "evalmany", "scope": g.scope_json(frames, pad=True), "texts": texts}))
         meta.append((chunk, frames))
     results, _ = runner.run_cases("dbg", cases, rep.workdir, label="eval")
     mismatches = []
